@@ -37,6 +37,7 @@ def check(run):
     run.rule('AGG.table', A.RULES['AGG.table'])
     for cfg in configs(run):
         F = run.facts(cfg)
+        if cfg == 'base': __import__('common').pins(run, F, 'agg_delegates')
         # helpers this property stands on (rule sets owned by other properties, see common.deps)
         from common import deps as _deps
         _deps(run, F, 'isnone', 'casts')
